@@ -518,7 +518,11 @@ def run_kani_property(run, cfg):
             continue
         seen = set()
         for (cname, status, desc, loc) in bad:
-            if any(p in desc or p in cname for p in KANI_UNDECIDED_PATTERNS) and not h.get("entropy_guard"):
+            # tool limits are never a verdict; only for the self-composition harnesses (entropy_guard) an *unsupported foreign
+            # function* reached from the operation under test (getrandom, clock_gettime) is the violation being looked for
+            limit = any(p in desc or p in cname for p in KANI_UNDECIDED_PATTERNS)
+            foreign = any(p in desc or p in cname for p in ("is not currently supported by Kani", "unsupported_construct"))
+            if limit and not (h.get("entropy_guard") and foreign):
                 undecided = undecided or ("harness %s: %s (%s) — tool limit, not a verdict" % (n, desc, cname))
                 continue
             mine = "/kani/src/" in loc or loc.startswith("src/")
